@@ -47,6 +47,13 @@ func cmdDump(args []string) {
 			}
 		}
 	}
+	for _, a := range args {
+		if strings.HasPrefix(a, "=") {
+			if fn := e.lookupFunc("github.com/philpearl/avro", a[1:]); fn != nil {
+				fn.WriteTo(os.Stdout)
+			}
+		}
+	}
 }
 
 func cmdVerify(args []string) {
